@@ -1087,3 +1087,155 @@ def c17(chk, tier):
     chk.cov["rule"] = ("feature subsets (x guard) enumerated by TLC from spec/HpkeFeatures.tla; per subset: library check, "
                        "positive and negative surface probes, the crate's tests, scripted scenario digest vs the full feature "
                        "set; distinct = distinct (kind of build, subset, guard, item)")
+
+
+# ------------------------------------------------------------------------------------------- C18
+SENDSYNC_SRC = '''
+#![allow(unused)]
+use hpke::{aead::*, kdf::*, kem::*, Kem as KemTrait};
+fn ss<T: Send + Sync>() {}
+fn suite<A: Aead, K: Kdf, M: KemTrait>() where
+    AeadCtxS<A, K, M>: Send + Sync, AeadCtxR<A, K, M>: Send + Sync {
+    ss::<AeadCtxS<A, K, M>>(); ss::<AeadCtxR<A, K, M>>(); ss::<AeadTag<A>>();
+}
+fn kem<M: KemTrait>() where M::PublicKey: Send + Sync, M::PrivateKey: Send + Sync, M::EncappedKey: Send + Sync {
+    ss::<M::PublicKey>(); ss::<M::PrivateKey>(); ss::<M::EncappedKey>();
+}
+pub fn all() {
+BODY
+    ss::<hpke::HpkeError>(); ss::<hpke::PskBundle<'static>>();
+}
+'''
+
+
+def c18_static(chk):
+    from . import features
+    kems = list(features.KEM_TYPE.values())
+    kdfs = ["HkdfSha256", "HkdfSha384", "HkdfSha512"]
+    aeads = ["AesGcm128", "AesGcm256", "ChaCha20Poly1305", "ExportOnlyAead"]
+    body = "".join("    kem::<%s>(); ss::<hpke::OpModeR<'static, %s>>(); ss::<hpke::OpModeS<'static, %s>>();\n" % (m, m, m) for m in kems)
+    body += "".join("    suite::<%s, %s, %s>();\n" % (a, k, m) for a in aeads for k in kdfs for m in kems)
+    b = features.Builder("C18")
+    try:
+        d = b.crate("sendsync", features.ALL_FEATURES, {"lib.rs": SENDSYNC_SRC.replace("BODY", body)})
+        cmd = ["cargo", "check", "--offline", "--lib"]
+        rc, out = features.run(cmd, d, b.flags(False))
+        chk.case(("static", "send+sync", 48 * 3 + 4 * 5 + 2))
+        if rc != 0:
+            chk.violation("a public type is no longer Send + Sync (compile-time probe fails): "
+                          + " / ".join(l for l in out.split("\n") if l.startswith("error"))[:300],
+                          {"kind": "build", "command": " ".join(cmd), "source": "probe crate asserting Send + Sync for every "
+                           "context, tag, key, encapsulated key, mode and error type", "output": out[-3000:],
+                           "fingerprint": "c18-sendsync"})
+            return False
+        return True
+    finally:
+        b.cleanup()
+
+
+@prop("C18")
+def c18(chk, tier):
+    thorough = tier == "thorough"
+    chk.assumptions += [
+        "the specification has no thread and no global state: per-session predictions are those of the session alone; "
+        "TLC enumerates interleavings and thread placements of three sessions (same parameters: other RNG script / same "
+        "RNG script) and checks the frame condition and determinism on the model",
+        "schedules are executed on persistent worker threads (contexts are moved between threads); then every context's "
+        "calls are re-run truly concurrently (one thread per context, barrier start) with the concrete arguments of the "
+        "sequential run and must return identical results; concurrent shared-reference exports must agree",
+        "Send/Sync of the public types is a compile-time probe; a library that fails it also fails to build the executor"]
+    if not c18_static(chk):
+        return
+    from .execproc import Executor
+    combos = [(32, 1, 1, 0), (16, 1, 3, 3), (17, 2, 2, 2), (18, 3, 1, 1), (32, 3, 65535, 1), (16, 2, 2, 0)]
+    if not thorough:
+        combos = [combos[0], combos[1 + seed() % 5]]
+    ses = Session(chk)
+    rnd = random.Random(seed())
+    try:
+        for kem, kdf, aead, mode in combos:
+            over = dict(KemC=str(kem), KdfC=str(kdf), AeadC=str(aead), ModeC=str(mode), RecordHist="FALSE", HistLen="0",
+                        Threads="{1}")
+            cfg = engine.cfg_for(chk, "mc_par_%d_%d" % (kem, aead), "MC_Par.cfg", over,
+                                 invariants=["Determinism", "AcceptsOnlySealed"], properties=["Frame"],
+                                 extra=[])
+            # exhaustive: hide thread placement and history from the fingerprint
+            txt = open(cfg).read().replace("VIEW ParView", "VIEW CoreView")
+            open(cfg, "w").write(txt)
+            from . import tlcrun
+            res = tlcrun.run("MC_Par", cfg, workers=8, timeout=3600)
+            if res.violated:
+                raise ToolError("MC_Par violates %s\n%s" % (res.violated, res.raw_tail))
+            chk.add_tlc(res.stats, "mc_par_%d_%d_%d_%d" % (kem, kdf, aead, mode))
+            # schedules: random walks of the model, every call placed on one of 3 threads
+            nwalk = [0]
+
+            def onb(beh):
+                if rnd.random() > (0.25 if thorough else 0.06):
+                    return
+                steps = steps_of(beh)
+                npro = len(steps) - len(beh["hist"])
+                for st, t in zip(steps[npro:], beh["threads"]):
+                    st["thread"] = t
+                ok = ses.replay(steps, label="schedule kem=%d aead=%d mode=%d" % (kem, aead, mode), sample=(nwalk[0] < 1))
+                nwalk[0] += 1
+                chk.case(("sched", kem, kdf, aead, mode, json.dumps([(s["op"], s.get("c"), s.get("thread")) for s in steps])))
+                if ok:
+                    c18_concurrent(chk, ses, steps, npro)
+            generate(chk, "MC_Par", "MC_Par.cfg", "gen_par_%d_%d" % (kem, aead),
+                     dict(over, RecordHist="TRUE", HistLen="11", Threads="{1, 2, 3}", MaxSeals="3", MaxOpens="3"),
+                     invariants=["PrintHist"], on_value=onb, simulate=60 if thorough else 25, depth=12, tlc_seed=seed())
+            if nwalk[0] == 0:
+                raise ToolError("no schedule generated")
+    finally:
+        ses.close()
+    chk.cov["rule"] = ("interleavings and thread placements (3 threads) of three sessions with equal parameters (other / same RNG "
+                       "script) over setup, seal, open of every sender's messages by every receiver, export; each schedule run "
+                       "sequentially on worker threads and again with one truly concurrent thread per context, plus concurrent "
+                       "shared-reference exports; distinct = distinct (suite, mode, schedule with thread placement)")
+
+
+def c18_concurrent(chk, ses, steps, npro):
+    """re-run the calls of the schedule just replayed with one concurrent thread per context and the same concrete
+    arguments; every result must equal the sequential one"""
+    seq = ses.last_trace
+    if not seq:
+        return
+    per_ctx = {}
+    order = []
+    pfx = "p%d_" % ses.n
+    for (cmd, ev), st in zip(seq[npro:], steps[npro:]):
+        c = cmd.get("ctx")
+        if not c:
+            continue
+        cmd2 = {k: v for k, v in cmd.items() if k != "thread"}
+        cmd2["ctx"] = pfx + c
+        per_ctx.setdefault(c, []).append((cmd2, ev))
+        if c not in order:
+            order.append(c)
+    if len(per_ctx) < 2:
+        return
+    out = ses.ex.call({"op": "par", "threads": [[c for c, _ in per_ctx[x]] for x in order]})
+    if "ok" not in out:
+        raise ToolError("par failed: %s" % json.dumps(out)[:300])
+    for x, res in zip(order, out["ok"]["results"]):
+        for (cmd2, ev), got in zip(per_ctx[x], res):
+            a = {k: ev.get(k) for k in ("ok", "err", "panic", "seq", "ovf")}
+            b = {k: got.get(k) for k in ("ok", "err", "panic", "seq", "ovf")}
+            if a != b:
+                chk.violation("concurrent execution of context %s gives a different result for %s than sequential execution"
+                              % (x, cmd2["op"]),
+                              {"kind": "par", "sequential": [{"cmd": c, "event": e} for c, e in seq],
+                               "concurrent_cmd": cmd2, "concurrent_event": got, "sequential_event": ev,
+                               "fingerprint": "c18-par-" + cmd2["op"]})
+                return
+    # concurrent shared-reference exports from one context
+    first = order[0]
+    pe = ses.ex.call({"op": "par_export", "ctx": pfx + first, "threads": 4, "exporter_ctx": "0102", "len": 32, "reps": 20})
+    one = ses.ex.call({"op": "export", "ctx": pfx + first, "exporter_ctx": "0102", "len": 32})
+    if "ok" in pe and "ok" in one and pe["ok"]["outs"] != [one["ok"]["out"]]:
+        chk.violation("concurrent exports from one context disagree", {"kind": "par_export", "outs": pe["ok"]["outs"],
+                      "sequential": one["ok"]["out"], "fingerprint": "c18-parexport"})
+    for x in order:
+        ses.ex.call({"op": "drop", "ctx": pfx + x})
+    chk.trace_ok()
